@@ -20,6 +20,7 @@ import (
 	"google.golang.org/protobuf/proto"
 
 	"github.com/atlassian/gostatsd"
+	"github.com/atlassian/gostatsd/internal/flush"
 	"github.com/atlassian/gostatsd/internal/verif/lib/fx"
 	"github.com/atlassian/gostatsd/internal/verif/vrt"
 	"github.com/atlassian/gostatsd/internal/verif/vsched"
@@ -150,7 +151,7 @@ func body(c cfg, r *run) func(*vsched.Exec) {
 		if c.Dyn2 {
 			dyn = []string{"region", "service"}
 		}
-		h, err := statsd.NewHttpForwarderHandlerV2(fx.Quiet(), "default", "http://up.invalid", c.Slots, c.MaxReq, c.Merge, c.Compress, "lz4", 0, c.Elapsed, time.Second, nil, dyn, pool, nil)
+		h, err := forwarderFromConfig(pool, nil, map[string]any{"consolidator-slots": c.Slots, "max-requests": c.MaxReq, "concurrent-merge": c.Merge, "compress": c.Compress, "compression-type": "lz4", "compression-level": 0, "max-request-elapsed-time": c.Elapsed, "flush-interval": time.Second, "dynamic-headers": dyn})
 		if err != nil {
 			panic(err)
 		}
@@ -263,7 +264,7 @@ func check(c cfg, r *run, outcomes map[string]struct{}) func(*vsched.Exec, vsche
 		}
 		// per body: attempts alternate fail.. then at most one success, nothing after a success
 		type bs struct {
-			fails, ok int
+			fails, ok   int
 			first, last time.Time
 			lastOutcome int
 		}
@@ -392,6 +393,14 @@ func check(c cfg, r *run, outcomes map[string]struct{}) func(*vsched.Exec, vsche
 }
 
 var dyn2Tags = [][]string{{"region:a", "region:b", "service:x"}, {"service:y", "other:x"}, {"region:a", "service:x"}, {"other:x"}}
+
+// forwarderFromConfig builds the forwarder the way the server does: from the http-transport configuration keys.
+func forwarderFromConfig(pool *transport.TransportPool, fc flush.Coordinator, kv map[string]any) (*statsd.HttpForwarderHandlerV2, error) {
+	v := viper.New()
+	kv["api-endpoint"] = "http://up.invalid"
+	v.Set("http-transport", kv)
+	return statsd.NewHttpForwarderHandlerV2FromViper(fx.Quiet(), v, pool, fc)
+}
 
 func configs() []cfg {
 	cs := []cfg{
